@@ -67,11 +67,19 @@ Theorem C06_reject_unbalanced : forall g st s,
   count_occ ascii_dec (fst (split_first SEMI (strip s))) RBR < count_occ ascii_dec (fst (split_first SEMI (strip s))) LBR ->
   parse g st [] s = Err EUnbalanced.
 Proof. exact reject_more_open. Qed.
+Theorem C06_reject_empty_namespace : forall g st ns net name fields rest,
+  no_empty_ns name = false -> parse_cpt g st ns net name fields rest = Err EEmptyNs.
+Proof. exact reject_empty_namespace. Qed.
+(* without an empty namespace segment, reader and writer reassemble the dotted name identically *)
+Theorem C06_name_rejoin : forall name, no_empty_ns name = true -> printed_name name = name /\ parsed_name name = name.
+Proof. exact name_rejoin. Qed.
 Theorem C06_reject_unknown_type : forall g st ns net name fields rest,
+  no_empty_ns name = true ->
   forallb (fun t => negb (starts_with t (last_str (split_on DOT name)))) (map fst (g_dict g)) = true ->
   parse_cpt g st ns net name fields rest = Err EUnknownCpt.
 Proof. exact reject_unknown_type. Qed.
 Theorem C06_reject_too_many : forall g st ns net name fields rest ty id rules,
+  no_empty_ns name = true ->
   match_type g (last_str (split_on DOT name)) = Some (ty, id) ->
   assoc_get ty (g_dict g) = Some rules -> rules <> [] ->
   Forall (fun r => length (r_params r) < length fields) rules ->
